@@ -97,7 +97,7 @@ def run_rules(ctx, chk):
                 chk.ob('C02.S1', 'write:release-store-of-even-after-copy', fin_ok, d.site, detail)
                 chk.ob('C02.S1', 'write:no-copy-after-final-store', not [x for x in dws if after and x.n > after[-1].n], d.site,
                        'record writes after the final generation store: %d' % len([x for x in dws if after and x.n > after[-1].n]))
-        chk.floor('C02.S1', 'writer paths', n_feasible, 2)
+        chk.floor('C02.S1', 'writer paths', n_feasible, 1)
 
     # ---------------------------------------------------------------- S2 / S3 reader
     r = ReaderModel(fb, chk, 'C02.S2')
@@ -171,7 +171,7 @@ def run_rules(ctx, chk):
                 chk.ob('C02.S2', 'snapshot:loop-carried-reference-generation-even', o['ok'], o['where'], o['detail'])
         chk.floor('C02.S2', 'record reads', n_reads, 1)
         chk.floor('C02.S2', 'accept sites', n_accept, 1)
-        chk.floor('C02.S2', 'reader paths', len(r.paths), 5)
+        chk.floor('C02.S2', 'reader paths', len(r.paths), 2)
 
     # ---------------------------------------------------------------- S4 who may write into the mapping
     allowed = {}
